@@ -7,4 +7,5 @@ from excel2pycl.src.translators.abstract_translator import AbstractTranslator
 class PatternTokenTranslator(AbstractTranslator):
     @classmethod
     def translate(cls, token: PatternToken, excel: Excel, context: Context) -> str:
-        return f'self._regexp({token.value[0]})'
+        # the pattern text (without its surrounding double quotes) is emitted as a quoted Python literal
+        return f'self._regexp({token.value[0][1:-1]!r})'
